@@ -343,7 +343,10 @@ fn render(seq: &[Sym]) -> String {
 }
 
 pub fn run(args: &[String]) {
-    // args: <alphabet: std|full|opts> <max len> <configs comma separated> [threads]
+    // args: <alphabet: std|full|opts> <max len> <configs comma separated> [threads]   |   lets <configs>
+    if args[0] == "lets" {
+        return run_lets(&args[1..]);
+    }
     let kind = args[0].clone();
     let maxlen: usize = args[1].parse().unwrap();
     let cfgs: Vec<usize> = args[2].split(',').map(|c| config_by_name(c).expect("config")).collect();
@@ -487,4 +490,97 @@ pub fn run(args: &[String]) {
         samples.into_iter().take(4).collect::<Vec<_>>().join(","),
         t0.elapsed().as_secs_f64()
     );
+}
+
+/// `c15 lets`: depth profiles x every assignment of a `let` form (none, `let n`, `let mut n`, `let ref n`) to the branches x
+/// with/without handler, in the given configs: the output must be a syntactically valid expression (never a panic).
+pub fn run_lets(args: &[String]) {
+    let all: Vec<usize> = args[0].split(',').map(|c| config_by_name(c).expect("config")).collect();
+    if all.len() > 1 {
+        // one worker per config
+        let t0 = std::time::Instant::now();
+        let hs: Vec<_> = all.iter().map(|c| { let c = *c; std::thread::spawn(move || lets_worker(vec![c])) }).collect();
+        let (mut n, mut nviol, mut viols, mut samples) = (0u64, 0u64, vec![], vec![]);
+        for h in hs {
+            let (a, b, c, d) = h.join().unwrap();
+            n += a;
+            nviol += b;
+            viols.extend(c);
+            samples.extend(d);
+        }
+        println!(
+            "{{\"mode\":\"c15lets\",\"sequences\":{},\"expansions\":{},\"nviol\":{},\"viols\":[{}],\"classes\":[],\"samples\":[{}],\"secs\":{:.1}}}",
+            n, n, nviol, viols.into_iter().take(8).collect::<Vec<_>>().join(","), samples.into_iter().take(3).collect::<Vec<_>>().join(","), t0.elapsed().as_secs_f64()
+        );
+        return;
+    }
+    let t0 = std::time::Instant::now();
+    let (n, nviol, viols, samples) = lets_worker(all);
+    println!(
+        "{{\"mode\":\"c15lets\",\"sequences\":{},\"expansions\":{},\"nviol\":{},\"viols\":[{}],\"classes\":[],\"samples\":[{}],\"secs\":{:.1}}}",
+        n, n, nviol, viols.join(","), samples.join(","), t0.elapsed().as_secs_f64()
+    );
+}
+
+fn lets_worker(cfgs: Vec<usize>) -> (u64, u64, Vec<String>, Vec<String>) {
+    let forms = ["", "let n{} = ", "let mut n{} = ", "let ref n{} = "];
+    let mut n = 0u64;
+    let mut nviol = 0u64;
+    let mut viols: Vec<String> = vec![];
+    let mut samples: Vec<String> = vec![];
+    for nb in 1..=3usize {
+        let mut depths = vec![1usize; nb];
+        loop {
+            for assign in 0..(4usize.pow(nb as u32)) {
+                for handler in [false, true] {
+                    let mut parts = vec![];
+                    for b in 0..nb {
+                        let f = forms[(assign / 4usize.pow(b as u32)) % 4].replace("{}", &b.to_string());
+                        let mut s = format!("{}x{}", f, b);
+                        for k in 1..depths[b] {
+                            s.push_str(&format!(" ~|> f{}_{} ~=> {{ g{}_{} }}", b, k, b, k));
+                        }
+                        parts.push(s);
+                    }
+                    for &cfg in &cfgs {
+                        let mut p2 = parts.clone();
+                        if handler {
+                            p2.push(if config(cfg).is_try { "map => h".to_string() } else { "then => h".to_string() });
+                        }
+                        let txt = p2.join(", ");
+                        let out = expand_str(&txt, cfg);
+                        n += 1;
+                        let bad = match &out {
+                            Outcome::Ok(_) => None,
+                            Outcome::InvalidOutput(o) => Some(format!("accepted but the output is not a syntactically valid expression: {}", &o[..o.len().min(300)])),
+                            Outcome::Panic(m) => Some(format!("internal panic instead of a diagnostic: {}", m)),
+                            o => Some(format!("structurally valid input was not expanded: {:?}", o.class())),
+                        };
+                        if let Some(b) = bad {
+                            nviol += 1;
+                            if viols.len() < 6 {
+                                viols.push(format!("{{\"input\":{},\"config\":{},\"what\":{},\"outcome\":{}}}", jesc(&txt), jesc(CONFIG_NAMES[cfg]), jesc(&b), jesc(out.class())));
+                            }
+                        } else if samples.len() < 2 && n % 5003 == 7 {
+                            samples.push(format!("{{\"input\":{},\"config\":{}}}", jesc(&txt), jesc(CONFIG_NAMES[cfg])));
+                        }
+                    }
+                }
+            }
+            // next depth profile (each depth 1..=3)
+            let mut i = 0;
+            while i < nb {
+                if depths[i] < 3 {
+                    depths[i] += 1;
+                    break;
+                }
+                depths[i] = 1;
+                i += 1;
+            }
+            if i == nb {
+                break;
+            }
+        }
+    }
+    (n, nviol, viols, samples)
 }
